@@ -6,7 +6,7 @@
 
    Values are the STORED values: year = int16, month / day / weekday / index = uint8.
    Outcomes: [Ok v] normal return, [Contract] a TETL_PRECONDITION fired (the day / month
-   constructors reject values >= 255), [UB SignedOverflow] an int / int32 operation overflowed,
+   constructors reject values > 255), [UB SignedOverflow] an int / int32 operation overflowed,
    [UB OutOfBounds] the lastDays[] table of detail::last_day_of_month was indexed outside 0..11. *)
 From Tetl Require Import Lib.Base C11.Model.
 Local Open Scope Z_scope.
@@ -21,9 +21,10 @@ Definition neg32_m (x : Z) : res Z := of_opt (s32 (- x)).
 (** * constructors *)
 (* year{int}: static_cast<int16_t> *)
 Definition year_ctor_m (y : Z) : Z := wraps 16 y.
-(* month{unsigned m}, day{unsigned d}: narrowed to unsigned char; TETL_PRECONDITION(m < 255) *)
-Definition month_ctor_m (m : Z) : res Z := if m <? 255 then Ok (wrapu 8 m) else Contract.
-Definition day_ctor_m (d : Z) : res Z := if d <? 255 then Ok (wrapu 8 d) else Contract.
+(* month{unsigned m}, day{unsigned d}: narrowed to unsigned char; TETL_PRECONDITION(m <= 255) (since 34b6a34;
+   it was m < 255 before, rejecting the documented value 255) *)
+Definition month_ctor_m (m : Z) : res Z := if m <=? 255 then Ok (wrapu 8 m) else Contract.
+Definition day_ctor_m (d : Z) : res Z := if d <=? 255 then Ok (wrapu 8 d) else Contract.
 
 (** * comparison operators: [==; !=; <; <=; >; >=] of year, month, day (on the stored value,
       converted to int resp. unsigned) *)
